@@ -4,8 +4,10 @@ CONSTANTS
  Urls <- MCUrls
  UserNames <- MCUserNames
  Paths <- MCPaths
+ Passwords <- MCPasswords
+ Spellings <- MCSpellings
  PageSizes <- MCPageSizes
  MaxHist = 25
  EmitAt = 25
-INVARIANTS Emit PagingComplete
+INVARIANTS RefusedChangedNothing Emit PagingComplete
 CHECK_DEADLOCK FALSE
